@@ -14,6 +14,16 @@
 //                                    pre-filled, no pool; run in a process with
 //                                    OSMIUM_USE_POOL_THREADS_FOR_PBF_PARSING=off) -> "ref H <hdr>" + objects
 //   run k=v ...                      one Reader scenario (see run_scenario)
+//   defcat <name> <part>*<count> ... register the concatenation of earlier byte strings (files with many
+//                                    thousand blocks are synthesized here instead of being sent as hex)
+//
+// Scale scenarios (tools/props/c05.py `scale_pass`): `run ... stack=<KiB>` runs the whole scenario — i.e. the
+// thread that calls Reader::read() — on a thread with an explicit, painted stack of that size (guard page
+// below it); OBS then carries stack_kb= / stack_hwm= (bytes of that stack ever touched).  The environment
+// variable C05_THREAD_STACK_KB sets the DEFAULT stack size of every thread created later (read thread,
+// parser thread, pool workers).  A SIGSEGV/SIGBUS is turned into `END crash signal=…` for the scenario
+// that was running (alternate signal stack on the consumer thread).  `digest=1`: buffers are reported
+// as `B <serial> <from> #<count>:<fnv of the dumps>` instead of the dumps.
 //
 // Output of `run`:
 //   BEGIN <scenario>
@@ -60,6 +70,9 @@
 #include <map>
 #include <memory>
 #include <new>
+#include <pthread.h>
+#include <signal.h>
+#include <sys/mman.h>
 #include <mutex>
 #include <sys/prctl.h>
 #include <sys/stat.h>
@@ -384,7 +397,7 @@ public:
 //   h   set_header_value
 //   b<n>   send a buffer with n nodes
 //   n<k>   send a buffer with k nested buffers + the top one, 1 node each (k+1 nodes)
-//   z   send a valid buffer without objects
+//   z   send a valid buffer without objects (z<n>: n of them)
 //   x   throw
 std::string g_mock_script;
 std::atomic<long long> g_mock_next_id{1};
@@ -430,8 +443,11 @@ public:
                     break;
                 }
                 case 'z': {
-                    osmium::memory::Buffer b{64, osmium::memory::Buffer::auto_grow::yes};
-                    send_to_output_queue(std::move(b));
+                    // z = z1; z<n> = n valid buffers without objects in a row
+                    for (std::size_t i = 0; i < (n ? n : 1); ++i) {
+                        osmium::memory::Buffer b{64, osmium::memory::Buffer::auto_grow::yes};
+                        send_to_output_queue(std::move(b));
+                    }
                     break;
                 }
                 case 'x':
@@ -588,6 +604,107 @@ std::string do_ref(const std::vector<std::string>& w) {
 }
 
 // ------------------------------------------------------------------------------------------
+// small painted stack for the thread that calls Reader::read() + crash reporting
+// ------------------------------------------------------------------------------------------
+struct SmallStack {
+    unsigned char* map = nullptr;   // start of the mapping (guard page first)
+    std::size_t guard = 0;
+    std::size_t size = 0;           // usable bytes above the guard page
+};
+SmallStack g_ss;                    // the stack of the running `stack=` scenario (for the signal handler)
+const unsigned char stack_paint = 0xA5;
+
+// bytes of the painted stack that were ever written (the stack grows downwards: the lowest dirty byte)
+std::size_t stack_high_water() {
+    if (!g_ss.map) return 0;
+    const unsigned char* lo = g_ss.map + g_ss.guard;
+    const unsigned char* hi = lo + g_ss.size;
+    const unsigned char* p = lo;
+    while (p < hi && *p == stack_paint) ++p;
+    return static_cast<std::size_t>(hi - p);
+}
+
+void wr(const char* s, std::size_t n) {
+    while (n > 0) {
+        const ssize_t k = ::write(1, s, n);
+        if (k <= 0) return;
+        s += k;
+        n -= static_cast<std::size_t>(k);
+    }
+}
+
+// The process is dying: report which scenario was running (everything it printed so far is in g_out) and
+// whether the fault address lies in / just below the guard page of the consumer's small stack.
+void on_fatal_signal(int sig, siginfo_t* si, void*) {
+    const unsigned char* a = static_cast<const unsigned char*>(si->si_addr);
+    const bool in_guard = g_ss.map && a >= g_ss.map - 65536 && a < g_ss.map + g_ss.guard + 256;
+    wr(g_out.data(), g_out.size());
+    char buf[256];
+    const int n = std::snprintf(buf, sizeof(buf), "MON no-crash FAIL signal=%d,fault-in-guard-page-of-consumer-stack=%d,stack_kb=%zu\nEND crash signal=%d%s\n",
+                                sig, in_guard ? 1 : 0, g_ss.size / 1024, sig, in_guard ? " consumer-stack-overflow" : "");
+    if (n > 0) wr(buf, static_cast<std::size_t>(n));
+    _exit(5);
+}
+
+void install_fatal_handlers() {
+    struct sigaction sa;
+    std::memset(&sa, 0, sizeof(sa));
+    sa.sa_sigaction = on_fatal_signal;
+    sa.sa_flags = SA_SIGINFO | SA_ONSTACK;
+    sigemptyset(&sa.sa_mask);
+    sigaction(SIGSEGV, &sa, nullptr);
+    sigaction(SIGBUS, &sa, nullptr);
+}
+
+struct StackJob {
+    const std::string* line;
+    const std::map<std::string, std::string>* kv;
+    const std::string* dir;
+};
+
+void run_scenario(const std::string& line, const std::map<std::string, std::string>& kv, const std::string& dir);
+
+void* stack_thread_main(void* arg) {
+    static unsigned char altstack[64 * 1024];
+    stack_t ss;
+    ss.ss_sp = altstack;
+    ss.ss_size = sizeof(altstack);
+    ss.ss_flags = 0;
+    sigaltstack(&ss, nullptr);
+    const StackJob* job = static_cast<const StackJob*>(arg);
+    run_scenario(*job->line, *job->kv, *job->dir);
+    ss.ss_flags = SS_DISABLE;
+    sigaltstack(&ss, nullptr);
+    return nullptr;
+}
+
+// run the scenario on a thread whose stack is `kb` KiB, painted, with a guard page below
+bool run_scenario_on_small_stack(std::size_t kb, const std::string& line, const std::map<std::string, std::string>& kv, const std::string& dir) {
+    const std::size_t page = static_cast<std::size_t>(sysconf(_SC_PAGESIZE));
+    const std::size_t size = ((kb * 1024 + page - 1) / page) * page;
+    void* m = mmap(nullptr, size + page, PROT_READ | PROT_WRITE, MAP_PRIVATE | MAP_ANONYMOUS, -1, 0);
+    if (m == MAP_FAILED) return false;
+    mprotect(m, page, PROT_NONE);
+    g_ss.map = static_cast<unsigned char*>(m);
+    g_ss.guard = page;
+    g_ss.size = size;
+    std::memset(g_ss.map + page, stack_paint, size);
+    pthread_attr_t attr;
+    pthread_attr_init(&attr);
+    pthread_attr_setstack(&attr, g_ss.map + page, size);
+    StackJob job{&line, &kv, &dir};
+    pthread_t th;
+    const int rc = pthread_create(&th, &attr, stack_thread_main, &job);
+    pthread_attr_destroy(&attr);
+    if (rc == 0) {
+        pthread_join(th, nullptr);
+    }
+    g_ss = SmallStack{};
+    munmap(m, size + page);
+    return rc == 0;
+}
+
+// ------------------------------------------------------------------------------------------
 // run: one Reader scenario
 // ------------------------------------------------------------------------------------------
 std::unique_ptr<osmium::thread::Pool> g_pool;   // explicit pool, re-created when the size changes
@@ -637,6 +754,7 @@ void run_scenario(const std::string& line, const std::map<std::string, std::stri
     const std::string stop = gets(kv, "stop", "close");
     const bool trace = geti(kv, "trace", 0) != 0;
     const long long wd_ms = geti(kv, "wd", 20000);
+    const bool digest = geti(kv, "digest", 0) != 0;
 
     // ---- set-up that is not part of the scenario
     ++g_epoch;
@@ -816,7 +934,11 @@ void run_scenario(const std::string& line, const std::map<std::string, std::stri
                 }
                 log_event("read-return", nullptr, 1, static_cast<long long>(delivered_buffers));
                 outf("A read buf " + std::to_string(n) + (b.has_nested_buffers() ? " NESTED" : ""));
-                outf("B " + std::to_string(delivered_buffers) + " " + (had_back ? "b" : "q") + " " + (n ? dumps : std::string{"-"}));
+                if (digest) {
+                    outf("B " + std::to_string(delivered_buffers) + " " + (had_back ? "b" : "q") + " #" + std::to_string(n) + ":" + std::to_string(fnv(dumps)));
+                } else {
+                    outf("B " + std::to_string(delivered_buffers) + " " + (had_back ? "b" : "q") + " " + (n ? dumps : std::string{"-"}));
+                }
                 ++delivered_buffers;
                 delivered_objects += n;
                 if (error_reported) data_after_error = true;
@@ -917,7 +1039,8 @@ void run_scenario(const std::string& line, const std::map<std::string, std::stri
          " error=" + (error_reported ? "1" : "0") + " first_error=" + first_error_call + ":" + first_error + " dreads=" + std::to_string(dreads_final) +
          " dreads_at_close=" + std::to_string(dreads_at_close) + " dcloses=" + std::to_string(g_dcloses.load()) + " pos_at_close=" + std::to_string(pos_at_close) +
          " pos_final=" + std::to_string(pos_final) + " size=" + std::to_string(bytes.size()) + " pieces=" + std::to_string(g_plan.pieces.size()) +
-         " pool=" + std::to_string(pool->num_threads()) + " ctor=" + ctor_result);
+         " pool=" + std::to_string(pool->num_threads()) + " ctor=" + ctor_result +
+         (g_ss.map ? " stack_kb=" + std::to_string(g_ss.size / 1024) + " stack_hwm=" + std::to_string(stack_high_water()) : std::string{}));
     outf("END ok");
     flush_out();
 }
@@ -942,6 +1065,18 @@ extern "C" void osmium_verif_point(const char* tag, const void* obj, std::size_t
 
 int main(int argc, char** argv) {
     const std::string dir = argc > 1 ? argv[1] : ".";
+    if (const char* e = std::getenv("C05_THREAD_STACK_KB")) {
+        // default stack size of every thread created from now on (watchdog, read thread, parser thread, pool workers)
+        const long kb = std::atol(e);
+        if (kb > 0) {
+            pthread_attr_t a;
+            pthread_attr_init(&a);
+            pthread_attr_setstacksize(&a, static_cast<std::size_t>(kb) * 1024);
+            pthread_setattr_default_np(&a);
+            pthread_attr_destroy(&a);
+        }
+        install_fatal_handlers();
+    }
     osmium::io::CompressionFactory::instance().register_compression(
         osmium::io::file_compression::gzip,
         [](int, osmium::io::fsync) -> osmium::io::Compressor* { return nullptr; },
@@ -971,8 +1106,33 @@ int main(int argc, char** argv) {
                 std::printf("%s\n", do_gen(dir, w).c_str());
             } else if (w[0] == "ref" && w.size() == 3) {
                 std::printf("%s\n", do_ref(w).c_str());
+            } else if (w[0] == "defcat" && w.size() >= 3) {
+                std::string data;
+                bool ok = true;
+                for (std::size_t i = 2; i < w.size() && ok; ++i) {
+                    const auto star = w[i].find('*');
+                    const auto it = g_data.find(w[i].substr(0, star));
+                    const std::size_t cnt = star == std::string::npos ? 1 : std::stoul(w[i].substr(star + 1));
+                    ok = it != g_data.end();
+                    for (std::size_t k = 0; ok && k < cnt; ++k) data += it->second;
+                }
+                if (!ok) {
+                    std::printf("bad-op\n");
+                } else {
+                    std::printf("def %s %zu\n", w[1].c_str(), data.size());
+                    g_data[w[1]] = std::move(data);
+                }
             } else if (w[0] == "run") {
-                run_scenario(line, parse_kv(w), dir);
+                const auto kv = parse_kv(w);
+                const long long kb = geti(kv, "stack", 0);
+                if (kb > 0) {
+                    install_fatal_handlers();
+                    if (!run_scenario_on_small_stack(static_cast<std::size_t>(kb), line, kv, dir)) {
+                        std::printf("BEGIN %s\nEND bad-scenario cannot-create-stack-thread\n", line.c_str());
+                    }
+                } else {
+                    run_scenario(line, kv, dir);
+                }
             } else {
                 std::printf("bad-op\n");
             }
